@@ -177,7 +177,7 @@ func H_C03_score() {
 	}
 }
 
-var vTexts = []string{"", "fox fox dog", "Ｆｏｘ, DOG!", "the quick brown fox", "dog  dog", "naïve café fox", "ﬁne fox", "fox"}
+var vTexts = []string{"", "tick tick fox fox dog", "Ｆｏｘ, DOG!", "the quick brown fox", "dog  dog", "naïve café fox", "ﬁne fox", "fox"}
 
 type vCorpusDoc struct {
 	toks    []string
